@@ -12,7 +12,8 @@ ASSUMPTIONS = [
     "design x (every module order, header/ANSI ports, comments) plus, for one instance port of width 1..3, every "
     "connection expression of the grammar id | id[i] | id[h:l] | 1'b0 | 1'b1 | {e,e} | empty up to the port width x "
     "named/positional x target declared before / after / as `celldefine primitive / never declared",
-    "module ports are based at index 0 (as the property states); wires use ranges [2:0] and [3:2]",
+    "module ports are based at index 0 (as the property states); wires use ranges [2:0] and [3:2]; ranges are "
+    "descending (the documentation shows no ascending range and the reader/composer pair does not keep one)",
 ]
 
 
@@ -111,12 +112,14 @@ def worker(case):
     core.reset_world()
     core.set_order(case[-1])
     probs = []
-    if kind == "base":
+    alt = kind == "alt"
+    style = "header"
+    if kind in ("base", "alt"):
         _, order, style, comments, _ = case
         vad = base_vad()
-        text = vw.render(vad, order=list(order), style=style, comments=comments)
+        text = vw.render(vad, order=list(order), style=style, comments=comments, alt=alt)
         first = [m for m in vad["modules"] if m.get("declared", True)][order[0]]["name"]
-        tag = "base:%s:%s" % (style, "top-first" if first == "top" else "top-later")
+        tag = "%s:%s:%s" % (kind, style, "top-first" if first == "top" else "top-later")
     elif kind == "chain":
         _, order, _ = case
         vad = chain_vad(len(order))
@@ -132,7 +135,7 @@ def worker(case):
         tag = "expr:%s:%s:%s:%s%s" % (shape, "full" if ew == pw else "narrow", "positional" if positional else "named", target,
                                      ":ansi" if style == "ansi" else "")
     key = core.digest(text)
-    exp = vw.expected(vad)
+    exp = vw.expected(vad, style, alt)
     try:
         n = parse_text(text)
     except Exception as ex:
@@ -157,6 +160,9 @@ def cases(tier):
             for comments in (False, True, "dense"):
                 for o in core.ORDER_VARIANTS:
                     out.append(("base", list(order), style, comments, o))
+                    # the same design in the other documented spellings (`timescale, skipped `ifdef and UDP,
+                    # comma lists, net types, defparam)
+                    out.append(("alt", list(order), style, comments, o))
     for depth in (3, 4) if tier == "quick" else (3, 4, 5):
         for order in itertools.permutations(range(depth)):
             out.append(("chain", list(order), "asc"))
